@@ -6,6 +6,7 @@ import (
 	"strings"
 
 	"github.com/opsidian/parsley/ast"
+	"github.com/opsidian/parsley/ast/interpreter"
 	"github.com/opsidian/parsley/data"
 	"github.com/opsidian/parsley/parser"
 	"github.com/opsidian/parsley/parsley"
@@ -25,6 +26,7 @@ type c13m struct { // mirror node
 	kind     int // 0 terminal, 1 empty, 2 nonterminal, 3 list (root only)
 	kids     []*c13m
 	caps     int // bit0 checker, bit1 transformer
+	sel      int // >= 0: the node is bound to the library's own interpreter.Select(sel) (no callbacks of the harness)
 	node     parsley.Node
 }
 
@@ -37,6 +39,7 @@ type c13world struct {
 	// allowNil: generate non-terminals without an interpreter; hasNil: the tree contains one
 	allowNil bool
 	hasNil   bool
+	nSel     int
 }
 
 type c13interp struct {
@@ -71,6 +74,9 @@ func (i c13interpC) StaticCheck(u interface{}, n parsley.NonTerminalNode) (inter
 	i.w.log = append(i.w.log, fmt.Sprintf("check %d same=%v u=%v kids=[%s]", i.m.id, n == i.m.node, u, strings.Join(ks, ",")))
 	if i.m.id == i.w.failAt {
 		return nil, parsley.NewErrorf(n.Pos(), "fail %d", i.m.id)
+	}
+	if i.m.id%5 == 2 {
+		return nil, nil // a checker may have nothing to say about the type of its node (statements, blocks)
 	}
 	return fmt.Sprintf("S%d@%v", i.m.id, u), nil
 }
@@ -111,7 +117,7 @@ func (i c13interpCT) TransformNode(u interface{}, n parsley.Node) (parsley.Node,
 
 func (w *c13world) gen(d int) *c13m {
 	w.nextID++
-	m := &c13m{id: w.nextID}
+	m := &c13m{id: w.nextID, sel: -1}
 	k := w.r.Intn(10)
 	if d <= 0 || k < 3 {
 		if k == 0 {
@@ -164,6 +170,21 @@ func (w *c13world) gen(d int) *c13m {
 		c := w.gen(d - 1)
 		m.kids = append(m.kids, c)
 		kids = append(kids, c.node)
+	}
+	if !m.noInterp && w.r.Intn(6) == 0 {
+		// the library's stock interpreter for "the value of my i-th child" (what Sentence, brackets and parentheses bind);
+		// the selected child is one that has a value (an empty node has none)
+		var cands []int
+		for i, c := range m.kids {
+			if c.kind != 1 {
+				cands = append(cands, i)
+			}
+		}
+		if len(cands) > 0 {
+			m.caps, m.sel = 0, cands[w.r.Intn(len(cands))]
+			ip = interpreter.Select(m.sel)
+			w.nSel++
+		}
 	}
 	m.node = ast.NewNonTerminalNode("N", kids, ip)
 	w.byNode[m.node] = m
@@ -245,6 +266,7 @@ func c13exec(j run.Job, a *run.Acc) {
 		}
 		a.Count("trees", 1)
 		a.Count("nodes", int64(nNodes))
+		a.Count("nodes bound to the library's own interpreter.Select", int64(w.nSel))
 
 		// ---- Walk: post-order, every node once, stops right after the first true
 		total := nNodes
@@ -301,7 +323,21 @@ func c13exec(j run.Job, a *run.Acc) {
 		}
 		// expected log and schemas of one pass with user context uc; prior = schemas left on the nodes by earlier passes
 		expectPass := func(uc string, failAt int, schema map[int]string) (want []string, failed bool) {
-			for _, m := range checkers {
+			for _, m := range order {
+				if m.kind != 2 {
+					continue
+				}
+				if m.sel >= 0 { // Select's checker: silently hands on the schema of the selected child
+					if s, has := schema[m.kids[m.sel].id]; has {
+						schema[m.id] = s
+					} else {
+						delete(schema, m.id)
+					}
+					continue
+				}
+				if m.caps&1 == 0 {
+					continue
+				}
 				var ks []string
 				for _, k := range m.kids {
 					s, has := schema[k.id]
@@ -314,7 +350,11 @@ func c13exec(j run.Job, a *run.Acc) {
 				if m.id == failAt {
 					return want, true
 				}
-				schema[m.id] = fmt.Sprintf("S%d@%s", m.id, uc)
+				if m.id%5 == 2 {
+					delete(schema, m.id)
+				} else {
+					schema[m.id] = fmt.Sprintf("S%d@%s", m.id, uc)
+				}
 			}
 			return want, false
 		}
@@ -357,17 +397,32 @@ func c13exec(j run.Job, a *run.Acc) {
 			var pre func(m *c13m)
 			var wantE []string
 			evalFail := -1
-			for _, m := range order {
-				if m.kind == 2 {
-					nts = append(nts, m)
+			// the interpreters evaluation reaches: a Select node evaluates its selected child only
+			var reach func(m *c13m)
+			reach = func(m *c13m) {
+				if m.kind != 2 {
+					return
+				}
+				if m.sel >= 0 {
+					reach(m.kids[m.sel])
+					return
+				}
+				nts = append(nts, m)
+				for _, k := range m.kids {
+					reach(k)
 				}
 			}
-			if w.r.Intn(3) == 0 {
+			reach(root)
+			if len(nts) > 0 && w.r.Intn(3) == 0 {
 				evalFail = nts[w.r.Intn(len(nts))].id
 			}
 			stopE := false
 			pre = func(m *c13m) {
 				if stopE || m.kind != 2 {
+					return
+				}
+				if m.sel >= 0 {
+					pre(m.kids[m.sel])
 					return
 				}
 				wantE = append(wantE, fmt.Sprintf("eval %d same=true u=UE", m.id))
@@ -380,11 +435,22 @@ func c13exec(j run.Job, a *run.Acc) {
 				}
 			}
 			pre(root)
+			var valueOf func(m *c13m) interface{}
+			valueOf = func(m *c13m) interface{} {
+				switch {
+				case m.kind == 1:
+					return nil
+				case m.kind == 2 && m.sel >= 0:
+					return valueOf(m.kids[m.sel])
+				}
+				return m.id
+			}
+			wantV := valueOf(root)
 			w.failAt = evalFail
 			w.log = nil
 			v, eerr := parsley.EvaluateNode("UE", root.node)
 			a.Count("interpreter invocations observed", int64(len(w.log)))
-			if strings.Join(w.log, ";") != strings.Join(wantE, ";") || (eerr != nil) != (evalFail >= 0) || (eerr == nil && v != root.id) {
+			if strings.Join(w.log, ";") != strings.Join(wantE, ";") || (eerr != nil) != (evalFail >= 0) || (eerr == nil && v != wantV) {
 				a.Violate("evaluation", "evaluation", desc(map[string]any{"log": w.log, "expected": wantE, "value": fmt.Sprint(v), "error": fmt.Sprint(eerr)}))
 			}
 		}
@@ -510,7 +576,7 @@ func init() {
 		Exec: c13exec,
 		Finish: func(tier string, a *run.Acc, cov map[string]any) string {
 			cov["rule"] = "case = a random tree built with ast.NewNonTerminalNode / NewEmptyNonTerminalNode / NewTerminalNode / EmptyNode (arity 0-4, depth <= 6, optionally an alternative list at the root), " +
-				"interpreters from four capability classes (plain, +StaticChecker, +NodeTransformer, both); instrumented callbacks log (kind, node id, what they saw). Oracle = the same traversals over the generator's mirror tree: " +
+				"interpreters from four capability classes (plain, +StaticChecker, +NodeTransformer, both) plus the library's own interpreter.Select; checkers that return a nil schema; transformers that return the node itself, a leaf or a fresh transformable non-terminal; instrumented callbacks log (kind, node id, what they saw). Oracle = the same traversals over the generator's mirror tree: " +
 				"Walk post-order with a stop at a random visit; StaticCheck bottom-up with children's schemas, stored schemas and an injected failure; evaluation order with identical node + user context and an injected failure; " +
 				"Transform (own transformer, else children, injected failure), directly and through parsley.Parse with EnableTransformation. non-trivial = tree with >= 3 nodes; distinct = distinct tree shape"
 			if a.Counters["walk callbacks observed"] == 0 || a.Counters["checker invocations observed"] == 0 || a.Counters["transformer invocations observed"] == 0 {
